@@ -421,6 +421,79 @@ func Describe(v ssa.Value) string {
 	return describe(v, map[ssa.Value]bool{}, 0)
 }
 
+// allocName: the name of a local cell; for the cell a parameter is spilled to
+// (a parameter that is assigned or captured by reference) the parameter's
+// baseline name, so that renaming the parameter does not change descriptions.
+func allocName(a *ssa.Alloc) string {
+	if p := spilledParam(a); p != nil {
+		return ParamName(p)
+	}
+	return a.Comment
+}
+
+// spilledParam: the parameter whose value is stored into a as its first content
+// (go/ssa spills a parameter that is address-taken or captured into a cell of
+// the same name, initialised from the parameter at function entry).
+func spilledParam(a *ssa.Alloc) *ssa.Parameter {
+	refs := a.Referrers()
+	if refs == nil {
+		return nil
+	}
+	for _, r := range *refs {
+		if st, ok := r.(*ssa.Store); ok && st.Addr == ssa.Value(a) {
+			if p, isP := st.Val.(*ssa.Parameter); isP && p.Name() == a.Comment && st.Block() != nil && st.Block().Index == 0 {
+				return p
+			}
+		}
+	}
+	return nil
+}
+
+// FreeVarName: the name a free variable is described under: when it is bound
+// (through any number of closure levels) to a parameter, or to the cell a
+// parameter is spilled to, the parameter's baseline name; its own name
+// otherwise.
+func FreeVarName(fv *ssa.FreeVar) string {
+	cur := fv
+	for i := 0; i < 6; i++ {
+		fn := cur.Parent()
+		if fn == nil || fn.Parent() == nil {
+			break
+		}
+		idx := -1
+		for k, f := range fn.FreeVars {
+			if f == cur {
+				idx = k
+			}
+		}
+		if idx < 0 {
+			break
+		}
+		var bound ssa.Value
+		for _, b := range fn.Parent().Blocks {
+			for _, in := range b.Instrs {
+				if mc, ok := in.(*ssa.MakeClosure); ok && mc.Fn == ssa.Value(fn) && idx < len(mc.Bindings) {
+					bound = mc.Bindings[idx]
+				}
+			}
+		}
+		switch x := bound.(type) {
+		case *ssa.Parameter:
+			return ParamName(x)
+		case *ssa.Alloc:
+			if p := spilledParam(x); p != nil {
+				return ParamName(p)
+			}
+			return fv.Name()
+		case *ssa.FreeVar:
+			cur = x
+			continue
+		}
+		break
+	}
+	return fv.Name()
+}
+
 func describe(v ssa.Value, seen map[ssa.Value]bool, depth int) string {
 	if v == nil {
 		return "<nil>"
@@ -438,7 +511,7 @@ func describe(v ssa.Value, seen map[ssa.Value]bool, depth int) string {
 	case *ssa.Parameter:
 		return "p:" + ParamName(x)
 	case *ssa.FreeVar:
-		return "fv:" + x.Name()
+		return "fv:" + FreeVarName(x)
 	case *ssa.Const:
 		if x.Value == nil {
 			return "nil"
@@ -455,7 +528,7 @@ func describe(v ssa.Value, seen map[ssa.Value]bool, depth int) string {
 		if st := singleStore(x); st != nil {
 			return d(st)
 		}
-		return "alloc:" + x.Comment
+		return "alloc:" + allocName(x)
 	case *ssa.UnOp:
 		if x.Op == token.MUL {
 			return d(x.X)
